@@ -23,7 +23,7 @@ import (
 )
 
 type ROp struct {
-	Op     string `json:"op"` // Add | Status | Sync | Release | SyncUnknown | Settle
+	Op     string `json:"op"` // Add | Status | Sync | Release | SyncUnknown | SyncStray | ReleaseStray | Settle
 	N      int    `json:"n"`  // Add: batch size; Status: new status; Sync: eliminations; Settle: order seed
 	T      int    `json:"t"`  // table id
 	Settle string `json:"settle,omitempty"`
@@ -260,6 +260,18 @@ func (e *regEnv) syncStray(t, out int) {
 	e.emit("main", "SyncState", t, out, nil, es(err), rel, pnums(np), "")
 }
 
+// releaseStray: ReleasePlayers naming a table nobody sits at, with nobody to hand back (the regulator accepts any id in this
+// call - the break protocol releases the players of a table it has already deleted). Nothing happens at the tables; whatever
+// the regulator does in return (seeded change R5b-C: it opens tables before the competition has started) is recorded.
+func (e *regEnv) releaseStray(t int) {
+	if _, known := e.member[t]; known || e.dead {
+		return
+	}
+	e.script.Ops = append(e.script.Ops, ROp{Op: "ReleaseStray", T: t})
+	err := e.guard(func() error { return e.r.ReleasePlayers(tname(t), []string{}) })
+	e.emit("main", "ReleasePlayers", t, 0, nil, es(err), 0, nil, "")
+}
+
 // strayTables: tables told to break (instruction outstanding or carried out)
 func (e *regEnv) strayTables() []int {
 	ids := append([]int{}, e.gone...)
@@ -398,6 +410,8 @@ func randomTournament(o *potsOut, run int, r *rand.Rand, steps int) *regEnv {
 		case k < 34:
 			if st := e.strayTables(); len(st) > 0 && r.Intn(2) == 0 {
 				e.syncStray(st[r.Intn(len(st))], r.Intn(3)) // a table that was told to break reports again
+			} else if r.Intn(3) == 0 {
+				e.releaseStray(e.nextTbl + 1 + r.Intn(3)) // nobody handed back by a table nobody sits at
 			} else {
 				e.sync(e.nextTbl+1+r.Intn(3), r.Intn(3)/2, "") // unknown table
 			}
@@ -495,6 +509,8 @@ func replayReg(o *potsOut, s RScript) *regEnv {
 			e.release(op.T, "")
 		case "SyncStray":
 			e.syncStray(op.T, op.N)
+		case "ReleaseStray":
+			e.releaseStray(op.T)
 		case "Settle":
 			e.settle(rand.New(rand.NewSource(int64(op.N))), 14)
 		}
